@@ -263,10 +263,30 @@ func (b *Builder) block(c *ctx, stmts []ast.Stmt, cur int) int {
 		}
 		pre := cur
 		cur = b.stmt(c, st, cur)
+		if cur == pre && blankNoise(st) {
+			// `_ = 0`, `_ = fmt.Sprint(...)`: not the statement an error test refers to
+			continue
+		}
 		c.prevPre = pre
 		c.prevStmt = st
 	}
 	return cur
+}
+
+// blankNoise: an empty statement or an assignment to blank identifiers only.
+func blankNoise(st ast.Stmt) bool {
+	switch t := st.(type) {
+	case *ast.EmptyStmt:
+		return true
+	case *ast.AssignStmt:
+		for _, l := range t.Lhs {
+			if id, ok := l.(*ast.Ident); !ok || id.Name != "_" {
+				return false
+			}
+		}
+		return true
+	}
+	return false
 }
 
 func (b *Builder) stmt(c *ctx, st ast.Stmt, cur int) int {
